@@ -266,7 +266,7 @@ def check_envelope_membership(ctx, prog, ep, root, rule="c11.scope"):
         def member(at):
             got = True
             for fsc in fscs:
-                r = TB.eval_return(fsc, at)
+                r = TB.eval_return(fsc, at, subst_result=True)
                 if isinstance(r, tuple) and r and r[0] == "stuck":
                     raise AnalysisError("envelope membership: cannot evaluate %s" % (r[1],))
                 v = at(r)
@@ -772,7 +772,11 @@ def check_classifiers(ctx, prog, rule="c11.classifier"):
     c3, d3 = TB.threshold_chain(of)
     ctx.floor(rule, "tilt thresholds (model)", len(c1), 4)
     ctx.floor(rule, "tilt thresholds (parser)", len(c2), 4)
-    ctx.floor(rule, "orientation thresholds", len(c3), 8)
+    # a classifier that is not a flat chain (nested tests, the angle folded about an axis) is decided by walking its decision tree at every
+    # place where it can change class (tables.classify_by_walk); the flat form keeps the table comparison below
+    tree3 = len(c3) < 8
+    if not tree3:
+        ctx.floor(rule, "orientation thresholds", len(c3), 8)
     pts = TB.partition_points([c1, c2], 0, 360)
     diff = []
     for x in pts:
@@ -790,7 +794,7 @@ def check_classifiers(ctx, prog, rule="c11.classifier"):
         ctx.ok(rule, rule + "|tilt-table", "<= 60 TOP, < 120 SIDE, < 240 BOTTOM, < 300 SIDE, else TOP", tf.loc())
     else:
         ctx.violation(rule, rule + "|tilt-table", "tilt classes are %s else %s" % ([(o, float(c), v) for o, c, v in got], TB.variant_of(d1)), tf.loc())
-    for label, fn, chain in (("Tilt::from", tf, c1), ("Orientation::from", of, c3)):
+    for label, fn, chain in (("Tilt::from", tf, c1),) + ((("Orientation::from", of, c3),) if not tree3 else ()):
         # compared operand has provenance normalize(x, 0, 360)
         okn = True
         for (op, c, r, lhs, ln) in chain:
@@ -806,8 +810,33 @@ def check_classifiers(ctx, prog, rule="c11.classifier"):
             ctx.violation(rule, key, "comparisons on the raw angle (%s) or thresholds not increasing (%s): the class would depend on more than the angle modulo 360"
                           % (not okn, [float(c) for c in cs]), fn.loc())
     wanto = [(18, "S"), (69, "SE"), (120, "E"), (157.5, "NE"), (202.5, "N"), (240, "NW"), (291, "W"), (342, "SW")]
+    if tree3:
+        ks, mod360 = TB.walk_constants(prog, of)
+        pts = TB.angle_points(ks | {Fraction(a) for a, _ in wanto})
+        ctx.floor(rule, "orientation decision tree: points evaluated", len(pts), 17)
+        refchain = [("Lt", str(a), ("s", b), None, None) for a, b in wanto]
+        bad, stuck = [], []
+        for x in pts:
+            got = TB.classify_by_walk(prog, of, x)
+            want = TB.classify_by_chain(refchain, ("s", "S"), x % 360)
+            if got is None:
+                stuck.append(float(x))
+            elif got != want:
+                bad.append("%s: %s, should be %s" % (float(x), got, want))
+        ctx.require(not stuck or bad, "Orientation::from(f32): decision tree not evaluable at %s" % stuck[:4])
+        if bad:
+            ctx.violation(rule, rule + "|orientation-table", "orientation sectors differ from 18/69/120/157.5/202.5/240/291/342 at %s" % "; ".join(bad[:6]), of.loc())
+        else:
+            ctx.ok(rule, rule + "|orientation-table", "decision tree walked at %d boundary points and midpoints of [0, 360]: compass sectors 18/69/120/157.5/202.5/240/291/342" % len(pts), of.loc())
+        key = rule + "|Orientation::from|normalised"
+        if mod360:
+            ctx.ok(rule, key, "the angle is read only through normalize(angle, s, s + 360)", of.loc())
+        else:
+            ctx.violation(rule, key, "a comparison reads the raw angle: the class would depend on more than the angle modulo 360", of.loc())
     goto = [(float(Fraction(c)), TB.variant_of(r)) for (op, c, r, _, _) in c3]
-    if goto == [(float(a), b) for a, b in wanto] and TB.variant_of(d3) == "S" and all(op == "Lt" for (op, _, _, _, _) in c3):
+    if tree3:
+        pass
+    elif goto == [(float(a), b) for a, b in wanto] and TB.variant_of(d3) == "S" and all(op == "Lt" for (op, _, _, _, _) in c3):
         ctx.ok(rule, rule + "|orientation-table", "compass sectors 18/69/120/157.5/202.5/240/291/342, symmetric about south", of.loc())
     else:
         ctx.violation(rule, rule + "|orientation-table", "orientation sectors are %s else %s" % (goto, TB.variant_of(d3)), of.loc())
